@@ -1,6 +1,7 @@
 package main
 
 import (
+	"reflect"
 	"fmt"
 	"strconv"
 	"strings"
@@ -204,5 +205,40 @@ func genC20(g *Gen) {
 		}
 		sep := []string{"", "."}[r.Intn(2)]
 		g.Add(c20PathIdxCase(name, idxs[r.Intn(len(idxs))], sep, maxIdx, r.Bool()))
+	}
+	// struct tags that are integer literals: whether they name a list entry or a setting is
+	// decided by the options of every single Unpack call
+	for i := 0; i < g.N/2; i++ {
+		maxIdx := []int64{1024, 1024, 2, 0, 5}[r.Intn(5)]
+		numKeys := r.Bool()
+		tag := []string{"0", "1", "3", "3", "7", "a", "03", "-1"}[r.Intn(8)]
+		opts := []ucfg.Option{ucfg.EnableNumKeys(numKeys)}
+		if maxIdx != 1024 {
+			opts = append(opts, ucfg.MaxIdx(maxIdx))
+		}
+		data := map[string]interface{}{}
+		for _, k := range []string{"0", "1", "3", "7", "a", "03"} {
+			if r.P(2, 3) {
+				data[k] = "v" + k
+			}
+		}
+		c, err := ucfg.NewFrom(data, opts...)
+		if err != nil {
+			continue
+		}
+		t := reflect.StructOf([]reflect.StructField{{Name: "F", Type: reflect.TypeOf(""), Tag: reflect.StructTag(fmt.Sprintf(`config:"%s"`, tag))}})
+		target := reflect.New(t)
+		obs, d := "None", "error"
+		var uerr error
+		if p, m := guard(func() { uerr = c.Unpack(target.Interface(), opts...) }); p {
+			d = "PANIC " + m
+		} else if uerr == nil {
+			obs, d = "(Some "+coqStr(target.Elem().Field(0).String())+")", target.Elem().Field(0).String()
+		} else {
+			d = descErr(uerr)
+		}
+		g.Add(Case{Coq: fmt.Sprintf("CTag %s %d %s %s %s", coqStr(tag), maxIdx, coqBool(numKeys), coqValue(ucfg.VerifDump(c)), obs),
+			Desc: map[string]interface{}{"kind": "tag", "tag": tag, "maxIdx": maxIdx, "numKeys": numKeys, "config": descTree(data), "observed": d},
+			Tags: []string{"tag", fmt.Sprintf("numKeys=%v", numKeys)}, Nontrivial: true})
 	}
 }
